@@ -134,8 +134,8 @@ def rule_r3(chk, db, conf):
                 n_dis += 1
                 chk.verdict(bool(cont) and flow.must_pass(inner, [b2], cont), "R3", "done.clean_tmp-after-rename", inner.loc(b2),
                             "the temp-file cleanup is switched off on a path where the rename did not succeed: a failed commit would leave the temp file behind")
-        chk.verdict(n_dis >= 1, "R3", "done.disarms-cleanup", inner.loc(), "done() never switches the cleanup off: Drop would delete... nothing, but the state "
-                    "machine of the writer is not the temp-then-rename one this rule understands", nontrivial=False)
+        if n_dis == 0:
+            chk.advisory("done() never switches the temp-file cleanup off (harmless: after the rename there is nothing left to remove)")
         oks = [w["bi"] for w in flow.return_writes(inner) if w["kind"] == "Ok"]
         chk.verdict(bool(cont) and flow.must_pass(inner, oks, cont), "R3", "done.ok-only-after-rename", inner.loc(bi), "done() can return Ok without the rename having succeeded")
     # Drop removes the temp file in the armed state
